@@ -929,6 +929,10 @@ func (tr tableReader) tolerantIterateAllChunks(ctx context.Context, cb func(chun
 			return
 		}
 
+		if uint64(chunk.length) > uint64(len(buf)) {
+			// Records are not bounded by the initial buffer size.
+			buf = make([]byte, chunk.length)
+		}
 		_, readErr := io.ReadFull(bufReader, buf[:chunk.length])
 		chunkData := buf[:chunk.length]
 
